@@ -6,6 +6,7 @@ import (
 	"go/token"
 	"go/types"
 	"sort"
+	"strconv"
 	"strings"
 
 	"pdfverif/internal/core"
@@ -1164,7 +1165,137 @@ func ruleJPEGHeaderValidation(c *core.Ctx) {
 			}
 		}
 		sort.Strings(missing)
+		if len(missing) == 0 {
+			return
+		}
+		// The comparison above is textual.  A check that is missing as text may have been
+		// rewritten (merged with another one by ||, moved into a helper that reports a
+		// boolean, written over renamed locals).  It counts as dropped only if the fork and the
+		// helpers processSOF calls have no rejecting test at all that compares with the same
+		// constants; otherwise the two cannot be compared.
+		type testSig struct{ lits, ops map[string]bool }
+		sigOf := func(e ast.Expr, info *types.Info) testSig {
+			sg := testSig{map[string]bool{}, map[string]bool{}}
+			ast.Inspect(e, func(m ast.Node) bool {
+				if ex, ok := m.(ast.Expr); ok {
+					if k, isK := core.IntConst(info, ex); isK {
+						sg.lits[strconv.FormatInt(k, 10)] = true
+						return false
+					}
+				}
+				if be, ok := m.(*ast.BinaryExpr); ok {
+					switch be.Op {
+					case token.EQL, token.NEQ, token.LSS, token.GTR, token.LEQ, token.GEQ, token.REM:
+						op := be.Op.String()
+						// a < b and b > a are the same test
+						if be.Op == token.GTR {
+							op = "<"
+						}
+						if be.Op == token.GEQ {
+							op = "<="
+						}
+						sg.ops[op] = true
+					}
+				}
+				return true
+			})
+			return sg
+		}
+		covers := func(have, want testSig) bool {
+			for l := range want.lits {
+				if !have.lits[l] {
+					return false
+				}
+			}
+			for op := range want.ops {
+				// an equality may be written as its negation in a helper that reports a boolean
+				if !have.ops[op] && !(op == "==" && have.ops["!="]) && !(op == "!=" && have.ops["=="]) {
+					return false
+				}
+			}
+			return true
+		}
+		var forkTests []testSig
+		var scan func(f *core.Func, depth int)
+		seenF := map[*core.Func]bool{}
+		scan = func(f *core.Func, depth int) {
+			if f == nil || seenF[f] || f.Decl.Body == nil {
+				return
+			}
+			seenF[f] = true
+			ast.Inspect(f.Decl.Body, func(m ast.Node) bool {
+				switch x := m.(type) {
+				case *ast.IfStmt:
+					forkTests = append(forkTests, sigOf(x.Cond, f.Info()))
+					// the parts of a disjunction
+					var parts func(e ast.Expr)
+					parts = func(e ast.Expr) {
+						if be, ok := ast.Unparen(e).(*ast.BinaryExpr); ok && (be.Op == token.LOR || be.Op == token.LAND) {
+							parts(be.X)
+							parts(be.Y)
+							return
+						}
+						forkTests = append(forkTests, sigOf(e, f.Info()))
+					}
+					parts(x.Cond)
+				case *ast.ReturnStmt:
+					// a helper that reports the outcome of a test: return a == b
+					for _, r := range x.Results {
+						if isBoolExpr(f.Info(), r) {
+							forkTests = append(forkTests, sigOf(r, f.Info()))
+						}
+					}
+				case *ast.CallExpr:
+					if depth > 0 {
+						if callee := core.Callee(f.Info(), x); callee != nil && callee.Pkg() == f.Obj.Pkg() {
+							scan(c.Prog.FuncOf(callee), depth-1)
+						}
+					}
+				}
+				return true
+			})
+		}
+		scan(c.Prog.RawFunc(pk, "(*decoder).processSOF"), 2)
+		refInfo := ref.TypesInfo
+		condOf := map[string]ast.Expr{}
+		var walkRef func(n ast.Node, ctx string)
+		walkRef = func(n ast.Node, ctx string) {
+			ast.Inspect(n, func(m ast.Node) bool {
+				switch x := m.(type) {
+				case *ast.CaseClause:
+					if m == n {
+						return true
+					}
+					var ls []string
+					for _, e := range x.List {
+						ls = append(ls, c.Prog.Src(e))
+					}
+					for _, st := range x.Body {
+						walkRef(st, ctx+"/case "+strings.Join(ls, ","))
+					}
+					return false
+				case *ast.IfStmt:
+					condOf[ctx+" if "+c.Prog.Src(x.Cond)] = x.Cond
+				}
+				return true
+			})
+		}
+		walkRef(refDecl.Body, "")
 		for _, m := range missing {
+			cond := condOf[m]
+			if cond != nil {
+				want := sigOf(cond, refInfo)
+				found := false
+				for _, ft := range forkTests {
+					if covers(ft, want) {
+						found = true
+					}
+				}
+				if found {
+					o.Unrec("the reference decoder rejects a frame header [%s]; the fork has no test written like this one, but it has a test with the same comparisons against the same constants: rewritten, not compared", strings.TrimSpace(m))
+					continue
+				}
+			}
 			o.Fail("the reference decoder rejects a frame header [%s]; the fork has no such check", strings.TrimSpace(m))
 		}
 	})
